@@ -97,6 +97,13 @@ CHECKS = {
         "note": TRUST + " The probe command reports argv/stdin faithfully.",
         "technique": "argument/pipeline family enumerated by TLC + trace validation of recorded command invocations against the TLA+ machine",
     },
+    "C15": {
+        "text": "spec/GoStrings.tla defines the 19 functions from the Go documentation; TLC evaluates it for every argument tuple of spec/FamC15.tla (all short strings on a small "
+                "alphabet, counts, element lists) and validates the output of the compiled bundled library (one program per call, real pipeline, /bin/bash); the reference is "
+                "calibrated against Go's package strings on every case in the same run.",
+        "note": "Trusted: TLC; Go's package strings of the installed toolchain; the harness's program template per function.",
+        "technique": "TLA+ reference definitions (GoStrings) evaluated by TLC, calibrated against Go, + validation of recorded runs of the compiled library",
+    },
 }
 
 NOT_APPLICABLE = {}
